@@ -434,8 +434,14 @@ func (s *spanScreen) setCursorPos(x, y int) {
 
 func (s *spanScreen) setScrollMarginTopBottom(top, bottom int) {
 	debugPrintln(debugScroll, "scroll margins:", top, bottom)
-	s.topMargin = clamp(top, 0, s.size.Y-1)
-	s.bottomMargin = clamp(bottom, 0, s.size.Y-1)
+	top = clamp(top, 0, s.size.Y-1)
+	bottom = clamp(bottom, 0, s.size.Y-1)
+	if top > bottom {
+		// a region whose top lies below its bottom is ignored
+		return
+	}
+	s.topMargin = top
+	s.bottomMargin = bottom
 }
 
 func (s *spanScreen) scroll(y1 int, y2 int, dy int) {
